@@ -65,16 +65,42 @@ Proof. exact huge_tab_refuted. Qed.
 Print Assumptions C14_huge_tab_refuted.
 
 (** ... and the whole draw of one frame (format_state, then draw_to_term on a terminal of any
-    u16 width and height, zero included, top or bottom aligned, after any previous frame
-    height n <= usize::MAX - 65536) reaches no panic site either (A4 as for `_any_tab_partial`). *)
+    u16 width and height, zero included, top or bottom aligned, after ANY previous frame height n -
+    the code caps it at the terminal height first, 7d42cff) reaches no panic site either.  Styles
+    as the builder methods return them (tab width 8). *)
 Theorem C14_accepted_draws : forall (c : ctor) (ops : list bop) (st : style),
-  build c ops = BOk st -> tab_sane st ->
+  Forall builder_op ops -> build c ops = BOk st ->
   forall (sn : snapshot) (tw th n : N) (bottom : bool) (O : oracles),
     snap_ok sn -> oracles_ok O ->
-    tw < U16 -> th < U16 -> n + U16 <= USIZE_MAX ->
+    tw < U16 -> th < U16 ->
     exists n', draw_outcome st sn tw th n bottom O = Ok n'.
 Proof. exact accepted_draws. Qed.
 Print Assumptions C14_accepted_draws.
+
+(** PARTIAL (A4, exactly as `C14_accepted_renders_any_tab_partial`): the same when the bar
+    changed the tab width to anything up to isize::MAX. *)
+Theorem C14_accepted_draws_any_tab_partial : forall (c : ctor) (ops : list bop) (st : style),
+  build c ops = BOk st -> tab_sane st ->
+  forall (sn : snapshot) (tw th n : N) (bottom : bool) (O : oracles),
+    snap_ok sn -> oracles_ok O ->
+    tw < U16 -> th < U16 ->
+    exists n', draw_outcome st sn tw th n bottom O = Ok n'.
+Proof. exact accepted_draws_any_tab. Qed.
+Print Assumptions C14_accepted_draws_any_tab_partial.
+
+(** [frame_outcome] is not a second opinion about draw_to_term: for frames of Bar lines on a
+    terminal of non-zero width it returns exactly the line count that the shared value model
+    Draw.draw_to_term (the one C01/C19 tie to the code, with `painted_any`/`cursor_below`) returns -
+    top and bottom alignment, every previous count, every `cursor_below`.  What frame_outcome
+    adds is the panic sites, the saturating usize operations and width 0. *)
+Theorem C14_frame_agrees_with_draw_model :
+  forall (ls : list IndModel.Text.line) (W H n : N) (bottom below : bool),
+  forallb IndModel.Text.is_bar ls = true -> 0 < W -> W < U16 -> H < U16 ->
+  frame_outcome (map IndModel.Text.lwidth ls) W H n bottom
+  = Ok (snd (fst (IndModel.Draw.draw_to_term ls n
+                    (if bottom then IndModel.Draw.Bottom else IndModel.Draw.Top) below W H))).
+Proof. exact frame_agrees_with_draw_model. Qed.
+Print Assumptions C14_frame_agrees_with_draw_model.
 
 (** The invariant behind it: every style the builder returns has >= 2 tick strings, >= 2
     progress characters, all of the same width >= 1 which is char_width, none containing a TAB,
@@ -84,11 +110,12 @@ Theorem C14_invariant : forall (c : ctor) (ops : list bop) (st : style),
 Proof. exact build_ok. Qed.
 Print Assumptions C14_invariant.
 
-(** The invariant alone (however the style was obtained) implies every guard. *)
-Theorem C14_invariant_renders : forall (st : style) (sn : snapshot) (tw : N) (O : oracles),
+(** PARTIAL (A4, as above): the invariant alone (however the style was obtained), with a tab
+    width up to isize::MAX, implies every guard. *)
+Theorem C14_invariant_renders_partial : forall (st : style) (sn : snapshot) (tw : N) (O : oracles),
   StyleOK st -> tab_sane st -> snap_ok sn -> oracles_ok O -> render_outcome st sn tw O = Ok tt.
 Proof. exact render_ok. Qed.
-Print Assumptions C14_invariant_renders.
+Print Assumptions C14_invariant_renders_partial.
 
 (** The public ProgressStyle::get_tick_str(idx) (every idx, in particular up to u64::MAX) and
     get_final_tick_str() of an accepted style do not panic and return tick_strings[idx mod (n-1)]
@@ -141,11 +168,16 @@ Theorem C14_constructors_never_panic : forall (c : ctor) (s : N), construct c <>
 Proof. exact construct_no_panic. Qed.
 Print Assumptions C14_constructors_never_panic.
 
-(** The debug_assert of TabExpandedString::expanded (state.rs:386, a panic site of debug builds)
-    is never reached: every TabExpandedString is made by `new`, which picks the NoTabs variant
-    exactly for tab-free text; the site itself is inhabited (a NoTabs value holding a tab). *)
+(** The debug_assert of TabExpandedString::expanded (state.rs:386, a panic site of debug builds):
+    [tes_made v b] lists every way the crate makes or changes a TabExpandedString (`new`, which
+    picks NoTabs exactly for tab-free text; the literal NoTabs(""); set_tab_width, which keeps
+    variant and text) - the list is a reading of the source (Builder.v cites the lines).  For every
+    value so made `expanded()` does not trip the assertion; the site itself is inhabited (a NoTabs
+    value holding a tab).  This is a statement about the CONSTRUCTORS, by induction on [tes_made];
+    that every value a bar ever holds is such a value, over all histories of bar operations, is
+    C16's invariant (C16_inv). *)
 Theorem C14_notabs_assert_unreachable : forall (st : style),
-  (forall b, expanded_new st b <> Panic SITE_NOTABS_ASSERT)
+  (forall v b, tes_made v b -> expanded_site st v b <> Panic SITE_NOTABS_ASSERT)
   /\ expanded_site st VNoTabs true = Panic SITE_NOTABS_ASSERT.
 Proof. exact notabs_assert_unreachable. Qed.
 Print Assumptions C14_notabs_assert_unreachable.
@@ -178,7 +210,7 @@ Definition ex_snap : snapshot :=
 Example C14_ex_reachable :
   exists st, build CDefaultSpinner ex_ops = BOk st /\ nlen (st_parts st) = 9 /\ st_cw st = 2
              /\ tab_sane st /\ snap_ok ex_snap /\ oracles_ok ex_oracles
-             /\ draw_outcome st ex_snap 80 24 6 true ex_oracles = Ok 6.
+             /\ draw_outcome st ex_snap 80 24 100 true ex_oracles = Ok 24.
 Proof.
   eexists. split; [vm_compute; reflexivity|].
   split; [reflexivity|]. split; [reflexivity|]. split; [vm_compute; discriminate|].
